@@ -1199,7 +1199,13 @@ func (s *Store) AssignManualServiceVIPs(idx uint64, psn structs.PeeredServiceNam
 		}
 	}
 
-	return true, maps.SliceOfKeys(modifiedEntries), nil
+	// The result is returned from the FSM apply and must be the same on every
+	// server: do not leak the iteration order of the map.
+	unassignedFrom := maps.SliceOfKeys(modifiedEntries)
+	sort.Slice(unassignedFrom, func(i, j int) bool {
+		return unassignedFrom[i].String() < unassignedFrom[j].String()
+	})
+	return true, unassignedFrom, nil
 }
 
 func updateVirtualIPMaxIndexes(txn WriteTxn, idx uint64, partition, peerName string) error {
